@@ -141,6 +141,8 @@ func packageName(dir string) (string, error) {
 
 // ---------------------------------------------------------------- worker
 
+var maxSeconds int
+
 type workerOut struct {
 	Results []*HarnessResult `json:"results"`
 	LoadS   float64          `json:"load_s"`
@@ -156,7 +158,9 @@ func workerMain(args []string) {
 	out := fs.String("out", "", "")
 	solver := fs.String("solver", "z3", "")
 	maxPaths := fs.Int("max-paths", 0, "")
+	maxSec := fs.Int("max-seconds", 0, "")
 	fs.Parse(args)
+	maxSeconds = *maxSec
 	if p := os.Getenv("SYMGO_PPROF"); p != "" {
 		f, _ := os.Create(p)
 		pprof.StartCPUProfile(f)
@@ -233,6 +237,9 @@ func runHarness(prog *ssa.Program, hp *ssa.Package, fn *ssa.Function, thorough b
 	in.witnessMax = 4
 	in.itoaTags = map[*ArrNode]*Term{}
 	t0 := time.Now()
+	if maxSeconds > 0 {
+		in.deadline = t0.Add(time.Duration(maxSeconds) * time.Second)
+	}
 	res = in.res
 	defer func() {
 		if r := recover(); r != nil {
@@ -373,9 +380,16 @@ func checkMain(args []string) int {
 	jobs := fs.Int("j", 0, "parallel workers")
 	noNative := fs.Bool("no-native", false, "skip native validation/replay (debug only; never registered)")
 	keep := fs.Bool("keep", false, "keep work dir")
+	budget := fs.Int("budget", 0, "per-harness time budget in seconds (0: 240 quick / 1500 thorough)")
 	fs.Parse(args[1:])
 	if *tier == "" {
 		*tier = "quick"
+	}
+	if *budget == 0 {
+		*budget = 240
+		if *tier == "thorough" {
+			*budget = 1500
+		}
 	}
 	seed := int64(0)
 	if s := os.Getenv("VERIF_SEED"); s != "" {
@@ -428,7 +442,7 @@ func checkMain(args []string) int {
 			sem <- struct{}{}
 			defer func() { <-sem }()
 			of := filepath.Join(work, fmt.Sprintf("w%d.json", i))
-			cmd := exec.Command(self, "worker", "--pkg", r.Pkg, "--harness", r.Name, "--tier", *tier, "--seed", fmt.Sprint(seed), "--out", of)
+			cmd := exec.Command(self, "worker", "--pkg", r.Pkg, "--harness", r.Name, "--tier", *tier, "--seed", fmt.Sprint(seed), "--out", of, "--max-seconds", fmt.Sprint(*budget))
 			cmd.Env = append(os.Environ(), "VERIF_DIR="+verifDir)
 			ob, err := cmd.CombinedOutput()
 			wo := &workerOut{}
@@ -441,6 +455,11 @@ func checkMain(args []string) int {
 				fmt.Fprintf(os.Stderr, "[%s] %s\n", r.Name, tail(string(ob), 2000))
 			}
 			results[i] = wres{ref: r, out: wo, err: wo.Error}
+			if os.Getenv("SYMGO_VERBOSE") != "" {
+				for _, hr := range wo.Results {
+					fmt.Fprintf(os.Stderr, "  done %-36s paths=%d completed=%d obl=%d/%d q=%d solver=%.1fs wall=%.1fs outcomes=%d %s\n", hr.Harness, hr.Paths, hr.Done, hr.Discharged, hr.Obligations, hr.Queries, hr.SolverS, hr.WallS, len(hr.Outcomes), wo.Error)
+				}
+			}
 		}(i, r)
 	}
 	wg.Wait()
